@@ -315,7 +315,13 @@ fn continuation(rng: &mut Rng, limit: usize) -> (Vec<u8>, &'static str) {
             v.extend_from_slice(&gen::render_raw(&gen::valid_request(rng, 3, &opts)));
             (v, "second error then valid")
         }
-        7 => (b"X".to_vec(), "single byte"),
+        7 => {
+            // a request whose declared length is above this connection's limit (and below the default one)
+            let n = limit + 1 + rng.below(40);
+            let mut v = format!("PUT /over HTTP/1.1\r\nContent-Length: {}\r\n\r\n", n).into_bytes();
+            v.extend(std::iter::repeat(b'o').take(n.min(3000)));
+            (v, "request declaring limit+k bytes")
+        }
         8 => {
             let mut v = b"\n".to_vec();
             v.extend_from_slice(&gen::render_raw(&gen::valid_request(rng, 4, &opts)));
